@@ -74,6 +74,23 @@ class Svc(Service):
         CAPTURE['args'] = (xs,)
         return CAPTURE.get('ret')
 
+    # bare body style: the message is the single argument / return value itself
+    @rpc(Integer, _returns=Integer, _body_style='bare')
+    def bint(ctx, x):
+        return x
+
+    @rpc(Array(Integer), _returns=Array(Integer), _body_style='bare')
+    def bints(ctx, xs):
+        return xs
+
+    @rpc(Inner, _returns=Inner, _body_style='bare')
+    def binner(ctx, x):
+        return x
+
+    @rpc(Array(Inner), _returns=Array(Inner), _body_style='bare')
+    def binners(ctx, xs):
+        return xs
+
 
 PROTOCOLS = {'json': JsonDocument, 'yaml': YamlDocument, 'msgpack': MessagePackDocument,
              'msgpack-bkey': MessagePackDocument}     # -bkey: the method key is sent as msgpack bin
@@ -713,3 +730,51 @@ def _exact_scaled(d, k):
     else:
         n = n * 10 ** e
     return -n if sign else n
+
+
+BARE = {'bint': 'int', 'bints': ['int'], 'binner': 'Inner', 'binners': ['Inner']}
+
+
+@harness('C02', params=[(c, m) for c in CONFIGS for m in sorted(BARE)], label=lambda p: LABEL(p[0]) + ' method=' + p[1], functions=FUNCS,
+         bounds={'signatures': 'bare body style with an integer, an array of 0..2 integers, an object, an array of 0..2 objects; the '
+                               'argument under the method key in the same conventions as a member of that type',
+                 'values': 'unbounded integer, strings of one arbitrary code point'})
+def bare_signatures(sx, p):
+    """a method in the bare body style - its message is the argument itself - receives the value sent under the method key and
+    its return value is the response document, under every wrapper / complex_as / validator setting"""
+    cfg, meth = p
+    pname, wrappers, as_list, validator = cfg
+    app, server = get(*cfg)
+    wire = 'msgpack' if pname.startswith('msgpack') else None
+    typ = BARE[meth]
+    if isinstance(typ, list):
+        n = sx.choose('n', [2, 1, 0])
+        val = [sx.int('x%d' % i, -2 ** 66, 2 ** 66) if typ[0] == 'int' else mk_inner(sx, 'o%d' % i, wire is None) for i in range(n)]
+    else:
+        val = sx.int('x', -2 ** 66, 2 ** 66) if typ == 'int' else mk_inner(sx, 'o', wire is None)
+
+    def enc(v, t, top):
+        if isinstance(t, list):
+            return [enc(x, t[0], False) for x in v]
+        if t == 'int':
+            return enc_int(sx, v, wire)
+        # the method key is the wrapper of a bare object; array elements carry their own
+        return ref_encode(v, t, wrappers and not top, as_list, sx, wire)
+    ctx = deliver(sx, pname, app, server, {meth: enc(val, typ, True)})
+    got = ctx.in_object
+    ok = [native_matches(sx, typ, got, val)]
+    # the return value: the same natives go back out
+    doc = respond(sx, pname, app, ctx, [got])
+    if not isinstance(doc, (list, tuple)) or len(doc) != 1:
+        return False
+    node = _denorm(doc[0])
+    if isinstance(typ, list):
+        if not isinstance(node, list) or len(node) != len(val):
+            return False
+        for nd, v in zip(node, val):
+            ok.append(_leaf_eq(sx, 'int', nd, v, wire) if typ[0] == 'int' else ref_decode_matches(sx, nd, 'Inner', v, wrappers, as_list, wire))
+    elif typ == 'int':
+        ok.append(_leaf_eq(sx, 'int', node, val, wire))
+    else:
+        ok.append(ref_decode_matches(sx, node, 'Inner', val, wrappers, as_list, wire))
+    return sx.And(*ok)
